@@ -57,6 +57,22 @@ def partLastStart (tracks : List C28.Track) (p : PInfo) : Nat :=
     | some tr => max m (C28.mp4ToGo (Int64.ofNat (t.base + (t.samples.dropLast.map (·.dur)).sum)) tr.ts).toInt.toNat
     | none => m) 0
 
+/-- "t1:1,2|t2:3" → [(t1, [1,2]), (t2, [3])] -/
+def parseServed (s : String) : List (String × List String) :=
+  if s == "-" then [] else
+  (s.splitOn "|").filterMap fun t => match t.splitOn ":" with
+    | [h, ids] => some (h, if ids.isEmpty then [] else ids.splitOn ",")
+    | _ => none
+
+/-- every track's wanted ids are served first and in order (what follows them comes from the incomplete tail,
+e.g. zero-filled payloads) -/
+def servedCovers (got want : String) : Bool :=
+  let g := parseServed got
+  (parseServed want).all fun (t, ids) =>
+    match g.find? (fun x => x.1 == t) with
+    | some (_, gi) => ids.isPrefixOf gi
+    | none => ids.isEmpty
+
 def stepCut (cf : CurFile) (k z : Nat) (impl : String) : DrvOut :=
   let F := cf.bytes
   let k := min k F.length
@@ -127,8 +143,7 @@ def stepCut (cf : CurFile) (k z : Nat) (impl : String) : DrvOut :=
     let listOk : Bool := complete.isEmpty ||
       (match implList.toNat? with | some d => decide (d + 1000000 > needEnd) | none => false)
     let want := servedOf complete
-    let getOk : Bool := complete.isEmpty || (implGet == "ok" && implServed == want) ||
-      (implGet == "ok" && (implServed.splitOn want).length > 1)
+    let getOk : Bool := complete.isEmpty || (implGet == "ok" && servedCovers implServed want)
     let spec :=
       if !listOk then
         if cf.h.hdrMs == 0 && implList == listS && allEnd + 1000000 > needEnd then
